@@ -68,6 +68,7 @@ structure Out where
   err     : Option String := none
   file    : Bytes := []
   ub      : Bool := false
+  allValid : Bool := false        -- every chunk is marked valid at the end (not printed)
 deriving Repr
 
 def countEq (v : List Int) (x : Int) : Nat := (v.filter (· == x)).length
@@ -122,45 +123,67 @@ def loop (H : HashFn) (rx : Dl.Rx) (B : Bytes) (th : Hdr) (limit : Int) (frag : 
     | (r, some (f, v, false)) => (f, v, (r :: reqs).reverse, n + 1, some "download")
     | (r, some (f, v, true)) => loop H rx B th limit frag drop fuel f v (r :: reqs) (n + 1)
 
+/-- `ftruncate(fd, zck_get_length)` -/
+def truncateTo (n : Nat) (f : Bytes) : Bytes := f.take n ++ zeros (n - f.length)
+
+/-- the end of the procedure: truncate to header + data, `zck_validate_data_checksum`, count what is left -/
+def finish (H : HashFn) (th : Hdr) (o : Out) (file : Bytes) (valid : List Int) : Out :=
+  let f := truncateTo (th.lead + th.headerLen + th.dataLen) file
+  let vd := (Reader.validateData H f { Reader.openCtx th with valid := valid }).1
+  { o with vd := some vd, missing := countEq valid 0, failed := countEq valid (-1), file := f,
+           allValid := valid.length == th.chunks.length && valid.all (· == 1) }
+
+/-- `zck_copy_chunks` from the old file, when there is one that opens -/
+def copyFrom (H : HashFn) (A : Option Bytes) (th : Hdr) (t : Copy.Tgt) : Copy.Tgt :=
+  match A with
+  | some a =>
+    (match Header.openFile H a with
+     | .ok ah => Copy.copyChunks H a ah th t
+     | _ => t)
+  | none => t
+
+/-- `zck_reset_failed_chunks` -/
+def resetFailed (v : List Int) : List Int := v.map fun x => if x == -1 then 0 else x
+
+/-- everything after the header is in place (`th` = the parsed header of the target `t2`): scan, copy, reset, fetch loop, end -/
+def afterHeader (H : HashFn) (rx : Dl.Rx) (A : Option Bytes) (B : Bytes) (limit : Int) (frag : Nat) (drop : Option (Nat × Nat))
+    (o : Out) (t2 : Bytes) (th : Hdr) : Out :=
+  let sc := Reader.validateChecksums H t2 (Reader.openCtx th)
+  let o := { o with scan := some (sc.1, sc.2.valid) }
+  if sc.1 = 0 then { o with err := some "scan" } else
+  if sc.1 = 1 then finish H th { o with copy := some sc.2.valid } t2 sc.2.valid else
+  let t := copyFrom H A th ⟨t2, sc.2.valid⟩
+  let valid := resetFailed t.valid
+  let o := { o with copy := some valid }
+  let r := loop H rx B th limit frag drop (th.chunks.length + 3) t.f valid [] 0
+  let o := { o with reqs := r.2.2.1, rounds := r.2.2.2.1, file := r.1 }
+  match r.2.2.2.2 with
+  | some e => { o with err := some e }
+  | none => finish H th o r.1 r.2.1
+
+/-- `dl_header` after the lead is known: fetch the rest of the header if the first request did not cover it.
+Returns the target with the header in place and the requests so far -/
+def fetchRest (B t1 : Bytes) (total : Nat) : Bytes × Out :=
+  let minDl := Zck.Gen.MIN_DOWNLOAD_SIZE
+  if total > minDl then
+    (Copy.writeAt t1 minDl ((B.drop minDl).take (total - minDl)),
+     { hdrReqs := [(0, minDl - 1), (minDl, total - 1)], file := Copy.writeAt t1 minDl ((B.drop minDl).take (total - minDl)) })
+  else (t1, { hdrReqs := [(0, minDl - 1)], file := t1 })
+
 /-- the whole procedure on target bytes `tgt0`, old file `A` (optional), new file `B` on the server -/
 def update (H : HashFn) (rx : Dl.Rx) (A : Option Bytes) (B tgt0 : Bytes) (limit : Int) (frag : Nat)
     (drop : Option (Nat × Nat) := none) : Out :=
   let minDl := Zck.Gen.MIN_DOWNLOAD_SIZE
   -- dl_header: the first request is for [0, minDl); the descriptor is at 0
   let t1 := Copy.writeAt tgt0 0 (B.take minDl)
-  let o : Out := { hdrReqs := [(0, minDl - 1)], file := t1 }
   match Header.readLead {} t1 with
   | .ok l =>
     let total := l.leadSize + l.headerLen
-    let (t2, o) := if total > minDl then
-        (Copy.writeAt t1 minDl ((B.drop minDl).take (total - minDl)), { o with hdrReqs := o.hdrReqs ++ [(minDl, total - 1)] })
-      else (t1, o)
-    let o := { o with file := t2 }
-    if B.length < (if total > minDl then total else 0) then { o with err := some "hdr-fetch2" } else
-    match Header.openFile H t2 with
-    | .ok th =>
-      let (sc, c) := Reader.validateChecksums H t2 (Reader.openCtx th)
-      let o := { o with scan := some (sc, c.valid) }
-      if sc = 0 then { o with err := some "scan" } else
-      let hdrLen := th.lead + th.headerLen
-      let fin (o : Out) (file : Bytes) (valid : List Int) : Out :=
-        let f := file.take (hdrLen + th.dataLen) ++ zeros (hdrLen + th.dataLen - file.length)     -- ftruncate
-        let (vd, _) := Reader.validateData H f { Reader.openCtx th with valid := valid }
-        { o with vd := some vd, missing := countEq valid 0, failed := countEq valid (-1), file := f }
-      if sc = 1 then fin { o with copy := some c.valid } t2 c.valid else
-      let t : Copy.Tgt := match A with
-        | some a => (match Header.openFile H a with
-          | .ok ah => Copy.copyChunks H a ah th ⟨t2, c.valid⟩
-          | _ => ⟨t2, c.valid⟩)
-        | none => ⟨t2, c.valid⟩
-      let valid := t.valid.map fun v => if v == -1 then 0 else v
-      let o := { o with copy := some valid }
-      let (file, valid, reqs, n, err) := loop H rx B th limit frag drop (th.chunks.length + 3) t.f valid [] 0
-      let o := { o with reqs := reqs, rounds := n, file := file }
-      match err with
-      | some e => { o with err := some e }
-      | none => fin o file valid
-    | _ => { o with err := some "header" }
-  | _ => { o with err := some "lead" }
+    let p := fetchRest B t1 total
+    if B.length < (if total > minDl then total else 0) then { p.2 with err := some "hdr-fetch2" } else
+    match Header.openFile H p.1 with
+    | .ok th => afterHeader H rx A B limit frag drop p.2 p.1 th
+    | _ => { p.2 with err := some "header" }
+  | _ => { hdrReqs := [(0, minDl - 1)], file := t1, err := some "lead" }
 
 end Zck.Update
